@@ -48,6 +48,7 @@ def verus(name, props, clause, fn, tier="quick"):
 ROOT = "verif_root::"
 EN = "energy::verif_energy::n::"
 RN = "verif_root::n::"
+CV = "convert::from_ctehexml::verif_convert::n::"
 RY = "energy::raytracing::ray::verif_ray::n::"
 BV = "energy::raytracing::bvh::verif_bvh::n::"
 
@@ -110,6 +111,11 @@ OBLIGATIONS = [
     native("n_c13_aabb_slab", ["C13"], "C13.aabb.slab", "AABB::intersects", EN + "n_c13_aabb_slab"),
     native("n_c12_sunlit", ["C12", "C14"], "C12.sunlit", "Model::sunlit_fraction / collect_occluders / ray_origins_for_window", EN + "n_c12_sunlit"),
     native("n_c12_fshobst", ["C12"], "C12.fshobst", "Model::compute_fshobst", EN + "n_c12_fshobst"),
+    native("n_c17_week_expand", ["C17"], "C17.week.expand", "ScheduleWeek::to_day_sch", RN + "n_c17_week_expand"),
+    native("n_c17_year_expand", ["C17"], "C17.year.expand", "SchedulesDb::get_year_as_day_sch / year_values", RN + "n_c17_year_expand"),
+    native("n_c17_occupancy", ["C17"], "C17.occupancy", "EnergyProps::from(&Model) (occ_spaces_hours_in_use, occ_spaces_average_load, loads_avg)", RN + "n_c17_occupancy"),
+    native("n_c17_convert_year", ["C17"], "C17.convert.year", "convert::schedules_from_bdl / day_of_year", CV + "n_c17_convert_year"),
+    native("n_c17_convert_week_day", ["C17"], "C17.convert.week", "convert::schedules_from_bdl", CV + "n_c17_convert_week_day"),
     native("n_c09_n50", ["C09"], "C09.n50", "N50Data::from(&EnergyProps)", EN + "n_c09_n50"),
     native("n_c10_qsoljul", ["C10"], "C10.qsoljul", "QSolJulData::from(&EnergyProps, &HashMap<Orientation,f32>)", EN + "n_c10_qsoljul"),
     native("n_c10_july_table", ["C10", "C20"], "C10.table", "climatedata::total_radiation_in_july_by_orientation", EN + "n_c10_july_table"),
